@@ -218,6 +218,88 @@ func runC14(r *rt.Runner) {
 		})
 	}
 
+	// large streams: long runs of empty segments, segments of tens of
+	// kilobytes, caller buffers larger than any internal block (the decoder
+	// converts in place inside the caller's buffer)
+	nLarge := r.N(4000, 60000)
+	for k := 0; k < nLarge; k++ {
+		r.Case("stream/large", func(c *rt.C) {
+			rng := c.Rand()
+			var segs []pfbSeg
+			total := 0
+			for i, ns := 0, 1+rng.IntN(4); i < ns; i++ {
+				switch rng.IntN(4) {
+				case 0:
+					// a run of empty segments of both types
+					for j, m := 0, []int{3, 50, 99, 100, 101, 102, 150, 400, 1000}[rng.IntN(9)]; j < m; j++ {
+						segs = append(segs, pfbSeg{typ: byte(1 + rng.IntN(2))})
+					}
+					c.Count("long runs of empty segments")
+				default:
+					ln := []int{4095, 4096, 4097, 8191, 8192, 8193, 12288, 16385, 40000, 65535, 65536, 70001}[rng.IntN(12)]
+					if rng.IntN(3) == 0 {
+						ln = 3000 + rng.IntN(40000)
+					}
+					if total+ln > 150000 {
+						ln = 5000
+					}
+					total += ln
+					d := make([]byte, ln)
+					for j := range d {
+						d[j] = byte(rng.IntN(256))
+					}
+					segs = append(segs, pfbSeg{typ: byte(1 + rng.IntN(2)), data: d})
+				}
+			}
+			marker := rng.IntN(4) > 0
+			stream, want := framePFB(segs, marker, nil)
+			var plan readPlan
+			switch rng.IntN(4) {
+			case 0:
+				s := []int{4096, 8192, 8193, 8194, 10000, 16384, 16385, 20001, 65536, 200000}[rng.IntN(10)]
+				plan = readPlan{[]int{s}, fmt.Sprint(s)}
+			case 1:
+				// doubling buffers, as io.ReadAll and bytes.Buffer.ReadFrom use them
+				plan = readPlan{[]int{512, 1024, 2048, 4096, 8192, 16384, 32768, 65536, 131072}, "doubling"}
+			case 2:
+				p := make([]int, 1+rng.IntN(5))
+				for i := range p {
+					p[i] = 1 + rng.IntN(30000)
+				}
+				plan = readPlan{p, fmt.Sprint(p)}
+			default:
+				plan = genCallerPlan(rng)
+				if len(plan.sizes) == 1 && plan.sizes[0] < 5 {
+					plan = readPlan{[]int{9001}, "9001"}
+				}
+			}
+			chunks, ewd, ddesc := genDeliveryPlan(rng)
+			c.SetDetail(func() string {
+				return fmt.Sprintf("%d segments, %d bytes in all\nstream starts: %x\ncaller buffer sizes: %s\nunderlying delivery: %s", len(segs), len(stream), head2(stream, 200), plan.desc, ddesc)
+			})
+			out, err, proto, reads := drivePFB(stream, chunks, ewd, plan)
+			c.Runner().Count("decoder Read calls", int64(reads))
+			if proto != "" {
+				c.Violation("large|short-read", proto, "")
+				return
+			}
+			if allZero(plan.sizes) {
+				return
+			}
+			if err != io.EOF {
+				c.Violation("large|error", fmt.Sprintf("well-formed stream: reading ended with %v instead of io.EOF after %d of %d expected bytes", err, len(out), len(want)), "")
+				return
+			}
+			if !bytes.Equal(out, want) {
+				c.Violation("large|bytes", fmt.Sprintf("decoded %d bytes, expected %d; first difference at %d", len(out), len(want), firstDiffAt(out, want)), "")
+			}
+			c.Count("large streams")
+			c.Nontrivial(append([]byte(plan.desc+"|"+ddesc+"|"), stream...), func() string {
+				return fmt.Sprintf("%d segments, %d bytes, marker=%v, caller %s, delivery %s", len(segs), len(stream), marker, plan.desc, ddesc)
+			})
+		})
+	}
+
 	// all 65536 first-two-byte header values
 	for hi := 0; hi < 256; hi++ {
 		hi := hi
